@@ -357,6 +357,8 @@ class Graph:
 
         node_records = {}
         for name, node in self.nodes.items():
+            if name not in num_seqs:
+                continue  # Node has no slot in the supergraph (e.g. pruned): it is never executed, so nothing to record
             # Initialize step record
             rng = graph_state.rng[name] if _record_settings[name]["rng"] else None
             inputs = graph_state.inputs[name] if _record_settings[name]["inputs"] else None
